@@ -36,7 +36,7 @@ PANIC = ('arithmetic', 'bounds', 'assertion', 'recommends', 'precondition', 'dec
 
 MAIN_MODS_MEMCHR = ['ext', 'vector', 'vbase', 'arch::generic::memchr', 'arch::x86_64::sse2::memchr', 'arch::x86_64::avx2::memchr',
                     'arch::all::memchr', 'arch::x86_64::memchr', 'memchr']
-MAIN_MODS_SUB = ['ext', 'vector', 'vbase', 'arch::all', 'arch::all::rabinkarp', 'arch::all::twoway', 'arch::all::shiftor', 'x_twc', 'x_so', 'arch::all::packedpair',
+MAIN_MODS_SUB = ['ext', 'vector', 'vbase', 'arch::all', 'arch::all::rabinkarp', 'arch::all::twoway', 'arch::all::shiftor', 'x_twc', 'x_so', 'memmem', 'cow', 'x_memmem', 'x_meta', 'arch::all::packedpair',
                  'arch::generic::packedpair', 'arch::x86_64::sse2::packedpair', 'arch::x86_64::avx2::packedpair',
                  'memmem::searcher', 'x_pp', 'x_eqrk', 'x_tw']
 
@@ -65,17 +65,18 @@ SEL_TW_F = [(TW, r'(Finder::.*|Shift::forward|Suffix::forward|SuffixKind::cmp|Ap
             (PRE, r'(Pre|PrefilterState)::.*'), (EQ, r'(is_prefix|is_equal|is_equal_raw)')]
 SEL_TW_R = [(TW, r'(FinderRev::.*|Shift::reverse|Suffix::reverse|SuffixKind::cmp|ApproximateByteSet::.*|TwoWay::.*)'), (TW, LEMMAS), (r'^x_twc$', r'.*'),
             (EQ, r'(is_suffix|is_equal|is_equal_raw)')]
-SEL_MM_F = [(MM, r'(find|find_iter|Finder::.*|FinderBuilder::.*)'), (COW, r'.*'), (r'^x_memmem$', r'.*'), (PRE, r'.*')]
+SEL_MM_F = [(MM, r'(find|find_iter|Finder::.*|FinderBuilder::.*)'), (COW, r'.*'), (r'^x_memmem$', r'.*'), (PRE, r'PrefilterConfig::.*')]
 SEL_MM_R = [(MM, r'(rfind|rfind_iter|FinderRev::.*|FinderBuilder::build_reverse)'), (COW, r'.*'), (r'^x_memmem$', r'.*'),
             (PRE, r'SearcherRev::.*')]
 
-SEL_GLUE_S = [(PRE, r'searcher_kind_.*')]
-SEL_GLUE_P = [(PRE, r'(prefilter_kind_.*|Prefilter::find_simple)')]
+SEL_GLUE_S = [(PRE, r'(searcher_kind_.*|Searcher::.*)')]
+SEL_GLUE_P = [(PRE, r'(prefilter_kind_.*|Prefilter::.*|Pre::.*|PrefilterState::.*|do_packed_search)')]
 SEL_SUB_F = SEL_RK_F + SEL_PP_FIND + SEL_PP_PRE + SEL_TW_F + SEL_GLUE_S + SEL_GLUE_P + SEL_C01
 SEL_SUB_R = SEL_RK_R + SEL_TW_R + SEL_C02
 
+A_GLUE = 'A2b rule X15 (defunctionalisation): the fn-pointer types SearcherKindFn/PrefilterKindFn are rewritten into enums of the fn items of the file and the call through the pointer into a match (closed world of values; the rewrite is mechanical and trusted); with it Searcher::{new,twoway,find} and Prefilter::{fallback,sse2,avx2,find} are VERIFIED; derived Clone of Searcher/SearcherRev is assumed to copy (r == *self)'
 A_TW = 'Two-Way completeness IS proved (critical-factorisation theorem and maximal-suffix correctness in prelude/x_twc.vrs; constructors establish wf_cf); the bounded Kani Two-Way harnesses remain as an independent cross-check in the thorough tier'
-A_GLUE = 'A6 calling through the fn pointers of the meta searcher (Searcher::find/new, Prefilter::find and its constructors, i.e. the pairing of `call` with the active union field) is represented by an assumed contract; the union-reading glue functions searcher_kind_* / prefilter_kind_* themselves ARE proved; the fn-pointer hop is executed only by the bounded Kani glue harnesses'
+A_GLUE_OLD = 'A6 calling through the fn pointers of the meta searcher (Searcher::find/new, Prefilter::find and its constructors, i.e. the pairing of `call` with the active union field) is represented by an assumed contract; the union-reading glue functions searcher_kind_* / prefilter_kind_* themselves ARE proved; the fn-pointer hop is executed only by the bounded Kani glue harnesses'
 A_DISP = 'A2 unsafe_ifunc! dispatcher: finally calls one of find_avx2/find_sse2/find_fallback (each verified) with the same arguments (rule X6; AtomicPtr/transmute/cpuid not verified)'
 A_LEAF = 'A3 x86 Vector leaf impls are external_body in Verus, closed by loop-free full-domain Kani harnesses (trusting Kani\'s SSE2/AVX2 intrinsic models); the NEON and wasm32 Vector impls are VERIFIED against per-instruction intrinsic specifications in prelude/isa.vrs, which are a trusted ISA model (no Kani cross-check possible on this host)'
 A_CTOR = 'iterator-adapter loops (Rabin-Karp constructors, Pair::with_ranker, ApproximateByteSet::new, Shift-Or) are verified after the mechanical desugaring rule X14 (std slice-iterator adaptor semantics: iter/rev/copied/skip/take/enumerate are trusted as encoded there); bounded Kani harnesses cross-check them in the thorough tier'
@@ -111,79 +112,72 @@ PROPS = {
     'C02': dict(level='proof', kinds=FUNCTIONAL, kani=K_LEAF,
                 builds=[dict(build='main', modules=MAIN_MODS_MEMCHR, select=SEL_C02)] + others(SEL_C02),
                 assumptions=[A_DISP, A_LEAF]),
-    'C03': dict(explore=True, level='other', kinds=FUNCTIONAL, kani=K_TW_F + K_RK_F + K_GLUE + K_TWPRE,
-                builds=[dict(build='memmem', modules=['memmem', 'cow', 'x_memmem'], select=SEL_MM_F),
-                        dict(build='main', modules=MAIN_MODS_SUB + MAIN_MODS_MEMCHR,
-                             select=SEL_SUB_F)],
-                explanation='hybrid: Verus proves the front end (memmem::find, Finder::find, builders) against assumed searcher contracts, and '
-                            'proves the blocks (Rabin-Karp search = leftmost, packed-pair find = leftmost, Two-Way soundness/no-panic); Two-Way '
-                            'completeness, constructors with iterator adapters and the union/fn-pointer glue are BOUNDED Kani harnesses',
-                assumptions=[A_TW, A_GLUE, A_CTOR, A_LEAF]),
+    'C03': dict(explore=True, level='proof', kinds=FUNCTIONAL, kani=K_LEAF + K_TW_F + K_RK_F + K_GLUE + K_TWPRE,
+                builds=[dict(build='main', modules=MAIN_MODS_SUB + MAIN_MODS_MEMCHR, select=SEL_MM_F + SEL_SUB_F)],
+                explanation='memmem::find, Finder::{new,find}, FinderBuilder, Searcher::{new,twoway,find} (fn pointers defunctionalised, X15), '
+                            'every searcher_kind_* and every engine (one-byte = memchr; packed-pair find; Rabin-Karp incl. constructors; '
+                            'Two-Way incl. completeness) are discharged by Verus in ONE unit: the postcondition of memmem::find is the property',
+                assumptions=[A_GLUE, A_TW, A_CTOR, A_LEAF, A_DISP]),
     'C04': dict(explore=True, level='proof', kinds=FUNCTIONAL, kani=K_TW_R + K_RK_R + K_GLUE_R,
-                builds=[dict(build='memmem', modules=['memmem', 'cow', 'x_memmem'], select=SEL_MM_R),
-                        dict(build='main', modules=MAIN_MODS_SUB + MAIN_MODS_MEMCHR, select=SEL_RK_R + SEL_TW_R + SEL_C02)],
+                builds=[dict(build='main', modules=MAIN_MODS_SUB + MAIN_MODS_MEMCHR, select=SEL_MM_R + SEL_SUB_R)],
                 explanation='memmem::rfind, FinderRev::{new,rfind} and SearcherRev::{new,rfind} (a plain enum, no fn pointer) are proved against '
-                            'the REAL reverse engines (Rabin-Karp reverse, Two-Way reverse incl. completeness, memrchr), all proved in this run',
-                assumptions=[A_TW, A_CTOR]),
+                            'the real reverse engines (Rabin-Karp reverse, Two-Way reverse incl. completeness, memrchr), all proved in this run',
+                assumptions=[A_TW, A_CTOR, A_DISP, A_LEAF]),
     'C05': dict(level='proof', kinds=('precondition', 'postcondition', 'invariant'), mem_only=True, kani=K_LEAF,
-                builds=[dict(build='main', modules=MAIN_MODS_MEMCHR + MAIN_MODS_SUB, select=SEL_C05),
+                builds=[dict(build='main', modules=None, select=SEL_C05),
                         dict(build='safe', modules=None, select=SEL_C05)] + others(SEL_C05),
                 explanation='every read/read_unaligned/load_*/add/sub/offset/offset_from in the extracted units carries a readable-range / '
                             'in-bounds / alignment precondition (prelude/vbase.vrs) that Verus discharges at each call site; the packed-pair '
                             'finders are additionally verified in the S variant (release semantics, type invariant only, any needle)',
-                assumptions=[A_DISP, A_LEAF, 'Two-Way and Shift-Or use safe indexing only (no pointer obligations); Shift-Or is not extracted']),
+                assumptions=[A_DISP, A_LEAF, 'Two-Way and Shift-Or use safe indexing only (their index obligations are C14)']),
     'C06': dict(level='proof', kinds=FUNCTIONAL, kani=[],
                 builds=[dict(build='main', modules=MAIN_MODS_MEMCHR + ['hist'], select=SEL_C06 + SEL_C01 + SEL_C02 + SEL_C07)] + others(SEL_C06 + SEL_C01 + SEL_C02 + SEL_C07),
                 explanation='per-operation window contracts on the real next/next_back/size_hint/count + a spec-level history machine '
                             '(prelude/hist.vrs) whose inductive lemmas give freshness, order, completeness and fusedness for every call order',
-                assumptions=['std Iterator/DoubleEndedIterator trait headers dropped (X7): methods verified as inherent fns', A_DISP]),
+                assumptions=['std Iterator/DoubleEndedIterator trait headers dropped (X7): methods verified as inherent fns; the three memrchrN_iter Rev adapters are not extracted', A_DISP]),
     'C07': dict(level='proof', kinds=FUNCTIONAL, kani=K_LEAF + K_POP,
                 builds=[dict(build='main', modules=MAIN_MODS_MEMCHR, select=SEL_C07)] + others(SEL_C07),
-                assumptions=[A_DISP, A_LEAF, 'u32::count_ones spec (popcount32) assumed in Verus, cross-checked by Kani harness leaf_count_ones_spec']),
-    'C08': dict(explore=True, level='other', kinds=FUNCTIONAL, kani=K_TW_F + K_TW_R,
-                builds=[dict(build='memmem', modules=['memmem', 'x_memmem'],
-                             select=[(MM, r'(FindIter|FindRevIter)::.*'), (MM, r'(find_iter|rfind_iter)'), (MM, r'(Finder|FinderRev)::(find_iter|rfind_iter)'),
-                                     (r'^x_memmem$', r'.*')]),
-                        dict(build='main', modules=MAIN_MODS_SUB + MAIN_MODS_MEMCHR,
-                             select=SEL_SUB_F + SEL_SUB_R)],
-                explanation='Verus proves FindIter/FindRevIter next and size_hint equal the greedy sequence, for every PrefilterState, against the '
-                            'assumed Searcher / SearcherRev contracts (C03/C04 decide those)',
+                assumptions=[A_DISP, A_LEAF, 'u32::count_ones / u64::count_ones specs (popcount) assumed in Verus; the u32 one is cross-checked by Kani harness leaf_count_ones_spec']),
+    'C08': dict(explore=True, level='proof', kinds=FUNCTIONAL, kani=K_TW_F + K_TW_R,
+                builds=[dict(build='main', modules=MAIN_MODS_SUB + MAIN_MODS_MEMCHR,
+                             select=[(MM, r'(FindIter|FindRevIter)::.*'), (MM, r'(find_iter|rfind_iter)'), (MM, r'(Finder|FinderRev)::.*'),
+                                     (r'^x_memmem$', r'.*')] + SEL_SUB_F + SEL_SUB_R)],
+                explanation='FindIter/FindRevIter next and size_hint are proved to realise the greedy sequence for every PrefilterState, on top '
+                            'of the proved Searcher / SearcherRev contracts in the same unit',
                 assumptions=[A_GLUE, A_TW]),
     'C09': dict(explore=True, level='proof', kinds=FUNCTIONAL, kani=K_LEAF,
-                builds=[dict(build='main', modules=MAIN_MODS_MEMCHR + MAIN_MODS_SUB, select=SEL_C01 + SEL_C02 + SEL_C07 + SEL_SUB_F + SEL_SUB_R)] + others(SEL_C01 + SEL_C02 + SEL_C07 + SEL_PP_FIND + SEL_PP_PRE),
-                explanation='corollary: SWAR, SSE2 and AVX2 implementations and all three dispatcher targets are proved against the same '
-                            'functional specification whose answer is unique',
-                assumptions=[A_DISP, A_LEAF, 'cargo features (std/alloc/none) and compile-time +avx2 only change is_available() arms, which carry no postcondition '
-                                             '(every outcome is covered); is_available of NEON/simd128 is proved true under its cfg']),
-    'C10': dict(explore=True, level='other', kinds=FUNCTIONAL, kani=K_GLUE + K_PAIR + K_TWPRE,
-                builds=[dict(build='memmem', modules=['memmem', 'x_memmem'], select=[(MM, r'(Finder::find|FindIter::next|FinderBuilder::.*)'), (PRE, r'(Pre|PrefilterState)::.*')]),
-                        dict(build='main', modules=MAIN_MODS_SUB + MAIN_MODS_MEMCHR,
-                             select=SEL_SUB_F + [(PRE, r'.*')])],
-                explanation='the assumed Searcher contract mentions neither PrefilterConfig, ranker nor PrefilterState (holds for all); Two-Way '
-                            'with a prefilter is proved sound/no-panic for every prefilter answer; bounded Kani runs the real glue with a fully '
-                            'symbolic ranker table and symbolic config',
-                assumptions=[A_GLUE, A_TW]),
+                builds=[dict(build='main', modules=None, select=SEL_C01 + SEL_C02 + SEL_C07 + SEL_SUB_F + SEL_SUB_R + SEL_MM_F + SEL_MM_R)]
+                + others(SEL_C01 + SEL_C02 + SEL_C07 + SEL_PP_FIND + SEL_PP_PRE) + [dict(build='other32', modules=None, select=SEL_C01 + SEL_C02 + SEL_C07)],
+                explanation='corollary: SWAR (64- and 32-bit usize), SSE2, AVX2, NEON and wasm32 simd128 implementations, every dispatcher '
+                            'target and every strategy of the meta searcher are proved against one functional specification with a unique answer',
+                assumptions=[A_DISP, A_LEAF, A_GLUE, 'cargo features (std/alloc/none) and compile-time +avx2 only change is_available() arms, which carry no '
+                                                     'postcondition on x86 (every outcome covered); is_available of NEON/simd128 is proved true under its cfg; the '
+                                                     'aarch64/wasm32 arms of Searcher::new are cfg-resolved away in the x86_64 unit (their packed-pair wrappers are proved separately)']),
+    'C10': dict(explore=True, level='proof', kinds=FUNCTIONAL, kani=K_GLUE + K_PAIR + K_TWPRE,
+                builds=[dict(build='main', modules=MAIN_MODS_SUB + MAIN_MODS_MEMCHR, select=SEL_MM_F + SEL_SUB_F + [(PRE, r'.*')])],
+                explanation='Searcher::new ensures built_for(needle) for EVERY PrefilterConfig and every ranker R (Pair::with_ranker is generic), '
+                            'Searcher::find ensures is_leftmost for every PrefilterState; Two-Way with a prefilter is exact for every prefilter '
+                            'built for the needle; so configuration, ranker and adaptive state cannot change a result',
+                assumptions=[A_GLUE, A_TW, A_CTOR]),
     'C11': dict(level='proof', kinds=FUNCTIONAL, kani=K_LEAF,
                 builds=[dict(build='main', modules=MAIN_MODS_SUB + MAIN_MODS_MEMCHR, select=SEL_PP_PRE + SEL_GLUE_P + SEL_C01)] + others(SEL_PP_PRE + SEL_C01)[:2],
-                assumptions=[A_LEAF, 'the fn-pointer hop Prefilter::find -> prefilter_kind_* is glue (bounded Kani only)']),
+                assumptions=[A_LEAF, A_GLUE]),
     'C12': dict(explore=True, level='proof', kinds=FUNCTIONAL, kani=K_TW_F + K_TW_R + K_RK_F + K_RK_R + K_SO,
-                builds=[dict(build='main', modules=MAIN_MODS_SUB, select=SEL_RK_F + SEL_RK_R + SEL_PP_FIND + SEL_TW_F + SEL_TW_R + [(SO, r'.*'), (r'^x_so$', r'.*')])],
+                builds=[dict(build='main', modules=MAIN_MODS_SUB, select=SEL_RK_F + SEL_RK_R + SEL_PP_FIND + SEL_TW_F + SEL_TW_R + [(SO, r'.*'), (r'^x_so$', r'.*')])] + others(SEL_PP_FIND)[:2],
                 explanation='every block is proved exact on its documented domain: packed-pair find, Rabin-Karp (search and constructors), '
                             'Two-Way forward/reverse (incl. completeness via the critical-factorisation theorem), Shift-Or (bit-parallel automaton)',
                 assumptions=[A_TW, A_CTOR, A_LEAF]),
-    'C14': dict(level='proof', kinds=PANIC, non_mem=True, kani=K_PAIR,
-                builds=[dict(build='main', modules=MAIN_MODS_MEMCHR + MAIN_MODS_SUB, select=[(r'.*', r'.*')]),
-                        dict(build='memmem', modules=['memmem', 'cow', 'x_memmem'], select=[(MM, r'.*'), (COW, r'.*'), (PRE, r'.*')])] + others([(r'.*', r'.*')]),
+    'C14': dict(level='proof', kinds=PANIC, non_mem=True, kani=[],
+                builds=[dict(build='main', modules=None, select=[(r'.*', r'.*')])] + others([(r'.*', r'.*')]) + [dict(build='other32', modules=None, select=[(r'.*', r'.*')])],
                 explanation='every debug_assert (X3), assert (X4, pinned to the documented precondition both ways), index, slice, subtraction, '
-                            'shift and unwrap in the extracted units is an obligation discharged by Verus',
-                assumptions=[A_CTOR, 'Shift-Or and the union/fn-pointer glue are covered by bounded Kani only']),
-    'C16': dict(explore=True, level='other', kinds=FUNCTIONAL, kani=[],
-                builds=[dict(build='memmem', modules=['memmem', 'cow', 'x_memmem'], select=[(MM, r'(Finder|FinderRev|FindIter|FindRevIter)::.*'), (COW, r'.*')]),
-                        dict(build='main', modules=MAIN_MODS_SUB + MAIN_MODS_MEMCHR,
-                             select=SEL_SUB_F + SEL_SUB_R)],
-                explanation='the result is determined by (needle, haystack) because Finder::find creates a fresh PrefilterState and the searcher '
-                            'contract is universally quantified over it; as_ref/into_owned/needle contracts proved; derived Clone on the '
-                            'front-end types carries no Verus spec (not covered)',
+                            'shift, unwrap and loop termination in the extracted units is an obligation discharged by Verus',
+                assumptions=[A_CTOR, A_GLUE]),
+    'C16': dict(explore=True, level='proof', kinds=FUNCTIONAL, kani=[],
+                builds=[dict(build='main', modules=MAIN_MODS_SUB + MAIN_MODS_MEMCHR,
+                             select=[(MM, r'(Finder|FinderRev|FindIter|FindRevIter)::.*'), (COW, r'.*')] + SEL_SUB_F + SEL_SUB_R)],
+                explanation='the result is determined by (needle, haystack) because Finder::find creates a fresh PrefilterState and Searcher::find '
+                            'is proved exact for every state; as_ref/into_owned/needle contracts proved; derived Clone of the front-end types '
+                            'carries no Verus spec except the assumed r == *self for Searcher/SearcherRev',
                 assumptions=[A_GLUE, 'Box<[u8]>::from(&[u8]) content spec assumed']),
     'C18': dict(level='proof', kinds=FUNCTIONAL + ('arithmetic',), kani=[],
                 builds=[dict(build='main', modules=['ext', 'vbase', 'arch::all'], select=[(EQ, r'.*'), (r'^ext$', r'.*'), (r'^vbase$', r'.*')])],
@@ -191,7 +185,7 @@ PROPS = {
     'C19': dict(explore=True, level='proof', kinds=FUNCTIONAL + ('assertion',), kani=K_PAIR,
                 builds=[dict(build='main', modules=MAIN_MODS_SUB, select=[(APP, r'(Pair::.*|Finder::(new|with_pair|pair))'),
                                                                           (GPP, r'Finder::(new|pair|min_haystack_len)'),
-                                                                          (XPP, r'Finder::(new|with_pair|with_pair_impl|pair|min_haystack_len)')])],
+                                                                          (XPP, r'Finder::(new|with_pair|with_pair_impl|pair|min_haystack_len)')])] + others([(XPP, r'Finder::(new|with_pair|with_pair_impl|pair|min_haystack_len)')])[:2],
                 explanation='Pair::with_ranker (for every ranker: generic R), Pair::new, with_indices, accessors and the finders\' '
                             'new/with_pair/pair/min_haystack_len are proved',
                 assumptions=[A_CTOR]),
